@@ -90,10 +90,10 @@ impl BuzHash {
         if in_val == self.last_input {
             self.repeated_input += 1;
         } else {
-            self.repeated_input = 0;
+            self.repeated_input = 1;
             self.last_input = in_val;
         }
-        if self.repeated_input < self.window {
+        if self.repeated_input <= self.window {
             let in_val = self.buzhash_table[in_val as usize];
 
             let out_val = self.buf[self.index];
